@@ -148,8 +148,8 @@ func c13Menu(size string) []c13Cmd {
 			"bad-type:0xff", "notowned-envelope:user-upsert", "bad-semantic:rtm-minisr")
 	case "small":
 		// depth-4 menu
-		return pick("user-create:u1:b", "chan-create:c1", "sub-add:c1:u1,u2:v2", "sub-rm:c1:u1:v1",
-			"rtm-upsert:c1:e1l1L1", "ret-adv:c1:e1l1L1:seq5", "mig-create:T1", "mig-fail:T1", "mig-create-terminal:T0", "mig-gc:before1000",
+		return pick("chan-create:c1", "chan-del:c1", "sub-add:c1:u1,u2:v2", "sub-rm:c1:u1:v1",
+			"rtm-upsert:c1:e1l1L1", "ret-adv:c1:e1l1L1:seq5", "mig-create-terminal:T0", "mig-gc:before1000",
 			"bad-trunc:user-upsert", "notowned-envelope:user-upsert")
 	}
 	if size == "core" {
@@ -926,17 +926,16 @@ func (g *c13Garbage) feed(hs uint16, data []byte, what string) (string, *ev.Viol
 	return out, nil
 }
 
-func c13Mutations(b byte, all bool) []byte {
-	if all {
-		out := make([]byte, 0, 255)
-		for v := 0; v < 256; v++ {
-			if byte(v) != b {
-				out = append(out, byte(v))
-			}
-		}
-		return out
-	}
+// c13Mutations lists the replacement values tried for one byte: quick = boundary values and
+// neighbours, thorough = additionally every single-bit flip and small offsets.
+func c13Mutations(b byte, wide bool) []byte {
 	cand := []byte{0x00, 0xff, b ^ 0x01, b ^ 0x80, b + 1, b - 1}
+	if wide {
+		for k := 0; k < 8; k++ {
+			cand = append(cand, b^(1<<k))
+		}
+		cand = append(cand, b+2, b-2, b+16, b-16, 0x01, 0x7f, 0x80, 0xfe, '"', '{', '}', ',', ':', '\\')
+	}
 	var out []byte
 	seen := map[byte]bool{b: true}
 	for _, v := range cand {
@@ -1007,12 +1006,21 @@ func c13RunGarbage(r *ev.R) {
 	r.Guard("garbage-mutations-refused", refused >= 1000, "refused truncations/mutations=%d", refused)
 	r.Guard("garbage-mutations-some-accepted", e.Outcome("accepted:changed")+e.Outcome("accepted:unchanged") >= 50, "mutations that are well-formed commands=%d", e.Outcome("accepted:changed")+e.Outcome("accepted:unchanged"))
 	r.Guard("garbage-command-types", len(typesSeen) >= 40, "command types with a valid encoding=%d", len(typesSeen))
-	e.Done(true, map[string]any{"valid_encodings": len(encs), "command_types": len(typesSeen), "mutation_values_per_byte": ev.Pick(r, "0x00,0xff,^1,^0x80,+1,-1", "all 255"),
+	e.Done(true, map[string]any{"valid_encodings": len(encs), "command_types": len(typesSeen), "mutation_values_per_byte": ev.Pick(r, "0x00,0xff,^1,^0x80,+1,-1", "quick set + every single-bit flip, +-2, +-16, 0x01,0x7f,0x80,0xfe and the JSON structural characters"),
 		"truncations": "every proper prefix"}, "each payload is applied as its own batch on a replica seeded with user/channel/subscribers/runtime-meta/task; oracle: no panic, refused => snapshot and applied index unchanged")
 
-	// 2. every body of at most L bytes for every command-type byte
+	// 2. tiny bodies: every body of <=1 byte for every command-type byte; thorough additionally every 2-byte
+	// body for every command type that has a valid encoding above and for some unregistered type bytes
 	e2 := r.NewEnum("garbage-tiny-bodies")
-	maxBody := ev.Pick(r, 1, 2)
+	deep := map[int]bool{}
+	if thorough {
+		for tb := range typesSeen {
+			deep[int(tb)] = true
+		}
+		for _, tb := range []int{0, 10, 11, 12, 13, 14, 16, 17, 18, 58, 60, 66, 100, 200, 254, 255} {
+			deep[tb] = true
+		}
+	}
 	workers := 8
 	var wg sync.WaitGroup
 	for w := 0; w < workers; w++ {
@@ -1027,6 +1035,10 @@ func c13RunGarbage(r *ev.R) {
 			gw := c13NewGarbage()
 			defer func() { gw.node.destroy() }()
 			for typ := w; typ < 256; typ += workers {
+				maxBody := 1
+				if deep[typ] {
+					maxBody = 2
+				}
 				body := make([]byte, 0, 2)
 				var rec func(depth int)
 				rec = func(depth int) {
@@ -1049,7 +1061,7 @@ func c13RunGarbage(r *ev.R) {
 	}
 	wg.Wait()
 	r.Guard("tiny-bodies-refused", e2.Outcome("err:corrupt-value")+e2.Outcome("err:invalid-argument")+e2.Outcome("err:other") >= 60000, "refused tiny bodies=%d", e2.Outcome("err:corrupt-value")+e2.Outcome("err:invalid-argument")+e2.Outcome("err:other"))
-	e2.Done(true, map[string]any{"command_type_bytes": 256, "max_body_bytes": maxBody}, "version byte 1, every type byte (registered or not), every body up to the bound")
+	e2.Done(true, map[string]any{"command_type_bytes_with_bodies_up_to_1_byte": 256, "command_type_bytes_with_bodies_up_to_2_bytes": len(deep)}, "version byte 1; every type byte (registered or not) with every body of <=1 byte; the listed number of type bytes with every body of <=2 bytes")
 }
 
 // c13ReplayGarbage re-executes one recorded garbage violation.
@@ -1115,7 +1127,7 @@ func c13Assumptions(r *ev.R) {
 }
 
 // TestVerifC13: quick = every log <=3 over the mini menu + every log <=2 over the core menu + garbage;
-// thorough = every log <=3 over the full menu + garbage.
+// thorough = every log <=2 over the full menu + every log <=3 over the core menu + garbage.
 func TestVerifC13(t *testing.T) {
 	r, done := c13Setup(t)
 	defer done()
@@ -1130,7 +1142,7 @@ func TestVerifC13(t *testing.T) {
 	}
 	runs := []run{{"logs3-mini-menu", "mini", 3}, {"logs2-core-menu", "core", 2}}
 	if r.Thorough() {
-		runs = []run{{"logs3-full-menu", "full", 3}}
+		runs = []run{{"logs2-full-menu", "full", 2}, {"logs3-core-menu", "core", 3}}
 	}
 	for _, x := range runs {
 		s, res := c13RunLogs(r, x.name, x.menu, x.depth)
